@@ -8,6 +8,7 @@ import (
 	"fmt"
 	"net/http"
 	"net/http/httptest"
+	"net/url"
 	"strings"
 	"sync"
 	"time"
@@ -71,6 +72,8 @@ type Op struct {
 	Plmn bool   `json:"plmn,omitempty"`
 	Addr bool   `json:"addr,omitempty"`
 	Lead int    `json:"lead,omitempty"` // respell: leading zeros in front of the rating group's decimal digits
+	Pdu  int    `json:"pdu,omitempty"`  // create: 1 carries pDUSessionChargingInformation with the request's charging id, 2 with another one
+	NSt  int    `json:"nst,omitempty"`  // create: the consumer answers notifications with this status (0: 204)
 }
 
 type Hist struct {
@@ -372,8 +375,22 @@ func (w *World) Exec(op Op) *Result {
 		units, _, _ := w.buildUnits(op, nil, false)
 		st.creates++
 		npath := fmt.Sprintf("/notify/%s/%d", st.supi, st.creates) // every consumer (session) registers its own URI
+		if op.NSt != 0 {
+			npath = fmt.Sprintf("/notify-%03d/%s/%d", op.NSt, st.supi, st.creates)
+		}
 		req := models.ChfConvergedChargingChargingDataRequest{SubscriberIdentifier: st.supi, ChargingId: se.chargingID, NfConsumerIdentification: nf,
 			InvocationTimeStamp: &now, InvocationSequenceNumber: isn, NotifyUri: env.Sink.URL + npath, MultipleUnitUsage: units}
+		if op.Pdu != 0 {
+			// the PDU session's own charging id usually repeats the request's; it need not
+			pid := se.chargingID
+			if op.Pdu == 2 {
+				pid = se.chargingID + 500000
+			}
+			req.PDUSessionChargingInformation = &models.ChfConvergedChargingPduSessionChargingInformation{ChargingId: pid,
+				UserInformation: &models.ChfConvergedChargingUserInformation{ServedGPSI: "msisdn-1"},
+				PduSessionInformation: &models.ChfConvergedChargingPduSessionInformation{PduSessionID: 1, DnnId: "internet",
+					NetworkSlicingInfo: &models.NetworkSlicingInfo{SNSSAI: &models.Snssai{Sst: 1, Sd: "010203"}}}}
+		}
 		body, _ := json.Marshal(req)
 		se.t0 = time.Now()
 		code, rb, hd := doHTTP("POST", prefix+"/chargingdata", body, nil)
@@ -399,7 +416,7 @@ func (w *World) Exec(op Op) *Result {
 			InvocationTimeStamp:      &now, InvocationSequenceNumber: isn, NotifyUri: env.Sink.URL + "/notify/" + st.supi,
 			MultipleUnitUsage: units, Triggers: trig(op.Trig)}
 		body, _ := json.Marshal(req)
-		path := prefix + "/chargingdata/" + se.ref + "/" + op.K
+		path := prefix + "/chargingdata/" + url.PathEscape(se.ref) + "/" + op.K // the reference is one path segment
 		code, rb, hd := doHTTP("POST", path, body, nil)
 		res.Status, res.Body, res.Location, res.Req, res.Path = code, rb, hd.Get("Location"), logicalReq(st.supi, &req), path
 		if code >= 200 && code < 300 {
